@@ -82,6 +82,20 @@ def gen_lookup(rng, tier):
             if rng.random() < 0.3:
                 labels = labels[: rng.randint(0, len(labels))]
         yield {"table": tbl, "vars": vs, "samples": samples, "labels": labels}
+    # many variants over few blocks (a whole chromosome's worth of variants against a handful of tracts): every position from
+    # 1 to the common end in ascending order, so that every block end and its successor is among them; sometimes shuffled
+    for _ in range(12 if tier == "quick" else 300):
+        chroms = rng.sample(["1", "2", "chr3"], rng.randint(1, 2))
+        pool = sorted(rng.sample(range(3, 400), 12))
+        tbl = []
+        for name in rng.sample(NAMES, rng.randint(1, 2)):
+            tbl.append({"name": name, "s1": rand_strand(rng, chroms, pool, 3), "s2": rand_strand(rng, chroms, pool, 3)})
+        safe = min(max(b[2] for b in st if b[1] == c) for s in tbl for st in (s["s1"], s["s2"]) for c in chroms)
+        top = safe if rng.random() < 0.85 else safe + 1
+        vs = [[c, p] for c in chroms for p in range(1, top + 1)]
+        if rng.random() < 0.2:
+            rng.shuffle(vs)
+        yield {"table": tbl, "vars": vs, "samples": None, "labels": None}
     # a strand with more blocks on one chromosome than a 16-bit index can address (dense recombination over many
     # generations): queries on and around block 65535/65536 and at the very end
     for _ in range(1 if tier == "quick" else 3):
